@@ -1299,6 +1299,9 @@ class NodeBase(ABC):
                 "or a `clone` argument to move a node within or between trees."
             )
 
+        if this is self or any(this is x for x in self.iterate_ancestors()):
+            raise InvalidOperation("A node can't be added to its own subtree.")
+
         return this, queue
 
     def replace_with(self, node: NodeSource, clone: bool = False) -> NodeBase:
